@@ -29,13 +29,14 @@ import EmbitModel.Driver.LiquidX
 import EmbitModel.Driver.PyCurve
 import EmbitModel.Driver.HeapY
 import EmbitModel.Driver.PsbtVerify
+import EmbitModel.Driver.SecpToy
 /-
   Native line-protocol driver over the executable model and spec (no Mathlib reachable from here).
   One request per line `op arg…`; one answer per line: `ok …`, `none` (model rejects), or `bad-op`.
 -/
 open Embit.Driver
 
-def handlers : List (String → List String → Option String) := [handleTx, handleHash, handleSighash, handlePsbt, handleBip39, handleMiniscript, handleView, handleSigCheck, handleSign, handleAddr, handleSecp, handleSlip39, handleHeap, handleLock, handleKeys, handleDescriptor, handleLiquid, handleKeysX, handlePsbtX, handleSlip39X, handleViewX, handleSignWith, handleCost, handleLockX, handleMiniscriptX, handleHeapX, handleLiquidX, handlePyCurve, handleEcOps, handleHeapY, handlePsbtVerify, handleSignWithViewBytes]
+def handlers : List (String → List String → Option String) := [handleTx, handleHash, handleSighash, handlePsbt, handleBip39, handleMiniscript, handleView, handleSigCheck, handleSign, handleAddr, handleSecp, handleSlip39, handleHeap, handleLock, handleKeys, handleDescriptor, handleLiquid, handleKeysX, handlePsbtX, handleSlip39X, handleViewX, handleSignWith, handleCost, handleLockX, handleMiniscriptX, handleHeapX, handleLiquidX, handlePyCurve, handleEcOps, handleHeapY, handlePsbtVerify, handleSignWithViewBytes, Embit.Driver.Toy.handleSecpToy]
 
 def dispatch (line : String) : String :=
   match (line.splitOn " ").filter (· ≠ "") with
